@@ -101,7 +101,8 @@ def periodic_voltage_source(source: ccp.Component, w: float = 0, w_resolution: f
         nodes=(source.nodes[0], source.nodes[1]),
         w=w,
         phi=frequency_properties.phase(n),
-        V=frequency_properties.amplitude(n)
+        V=frequency_properties.amplitude(n),
+        R=float(source.value['R'])
     )
     return ac_voltage_source(single_frequency_source, w, w_resolution)
 
@@ -165,7 +166,8 @@ def periodic_current_source(source: ccp.Component, w: float = 0, w_resolution: f
         nodes=(source.nodes[0], source.nodes[1]),
         w=w,
         phi=frequency_properties.phase(n),
-        I=frequency_properties.amplitude(n)
+        I=frequency_properties.amplitude(n),
+        G=float(source.value['G'])
     )
     return ac_current_source(single_frequency_source, w, w_resolution)
 
